@@ -38,7 +38,8 @@ def missing_stream(ck, cases):
             v = G.gen_conf(rng, a)
             if v is None:
                 a, v = ['cls', 'int'], ['int', 1]
-            params.append({'ann': a, 'val': v, 'default': (rng.random() < 0.3) or bool(params and params[-1]['default'])})
+            params.append({'ann': a, 'val': v, 'default': (rng.random() < 0.3) or bool(params and params[-1]['default']),
+                           'omit': rng.random() < 0.5})
         out.append({'stream': 'missing', 'obs': 'missing', 'params': params, 'miss': miss, 'bare': rng.choice(CC.BARE_T + CC.BARE_B) if bare_instead else None,
                     'ret_val': rng.choice(G.SCALARS[:8] + [['list', []]]), 'ctx': G.CTX, 'kind': rng.choice(['def', 'def', 'async', 'method'])})
     ck.missing = out
